@@ -19,27 +19,42 @@ func init() {
 	commands["retrytiming"] = func(args []string) int {
 		bad := 0
 		type sc struct {
-			name string
-			b    func() retrypolicy.RetryPolicyBuilder[any]
+			name      string
+			b         func() retrypolicy.RetryPolicyBuilder[any]
+			slowSched time.Duration // the OnRetryScheduled listener itself takes this long
 		}
 		ms := time.Millisecond
 		scs := []sc{
-			{"fixed", func() retrypolicy.RetryPolicyBuilder[any] { return retrypolicy.Builder[any]().WithDelay(4 * ms).WithMaxRetries(5) }},
+			{"fixed", func() retrypolicy.RetryPolicyBuilder[any] { return retrypolicy.Builder[any]().WithDelay(4 * ms).WithMaxRetries(5) }, 0},
 			{"backoff", func() retrypolicy.RetryPolicyBuilder[any] {
 				return retrypolicy.Builder[any]().WithBackoffFactor(2*ms, 9*ms, 1.5).WithMaxRetries(5)
-			}},
-			{"random", func() retrypolicy.RetryPolicyBuilder[any] { return retrypolicy.Builder[any]().WithRandomDelay(2*ms, 6*ms).WithMaxRetries(5) }},
+			}, 0},
+			{"random", func() retrypolicy.RetryPolicyBuilder[any] { return retrypolicy.Builder[any]().WithRandomDelay(2*ms, 6*ms).WithMaxRetries(5) }, 0},
 			{"jitter", func() retrypolicy.RetryPolicyBuilder[any] {
 				return retrypolicy.Builder[any]().WithDelay(5 * ms).WithJitter(2 * ms).WithMaxRetries(5)
-			}},
+			}, 0},
 			{"jitterfactor", func() retrypolicy.RetryPolicyBuilder[any] {
 				return retrypolicy.Builder[any]().WithDelay(5 * ms).WithJitterFactor(0.5).WithMaxRetries(5)
-			}},
+			}, 0},
 			{"delayfunc", func() retrypolicy.RetryPolicyBuilder[any] {
 				return retrypolicy.Builder[any]().WithDelayFunc(func(e failsafe.ExecutionAttempt[any]) time.Duration {
 					return time.Duration(1+e.Attempts()) * ms
 				}).WithMaxRetries(4)
-			}},
+			}, 0},
+			// time the policy's own listeners and the delay function take is not part of the delay: the wait announced to
+			// OnRetryScheduled starts when it is announced
+			{"slow-onfailure-listener", func() retrypolicy.RetryPolicyBuilder[any] {
+				return retrypolicy.Builder[any]().WithDelay(10 * ms).WithMaxRetries(3).OnFailure(func(failsafe.ExecutionEvent[any]) { time.Sleep(8 * ms) })
+			}, 0},
+			{"slow-delayfunc", func() retrypolicy.RetryPolicyBuilder[any] {
+				return retrypolicy.Builder[any]().WithDelayFunc(func(failsafe.ExecutionAttempt[any]) time.Duration {
+					time.Sleep(7 * ms)
+					return 9 * ms
+				}).WithMaxRetries(3)
+			}, 0},
+			{"slow-scheduled-listener", func() retrypolicy.RetryPolicyBuilder[any] {
+				return retrypolicy.Builder[any]().WithDelay(10 * ms).WithMaxRetries(3)
+			}, 8 * ms},
 		}
 		for _, s := range scs {
 			var mu sync.Mutex
@@ -54,6 +69,7 @@ func init() {
 					negative++
 				}
 				mu.Unlock()
+				time.Sleep(s.slowSched)
 			})
 			failsafe.Run(func() error {
 				now := time.Now()
